@@ -290,7 +290,7 @@ type FaultClient struct {
 	OnPosMap func()
 	OnFault  func(kind string)
 	OnFetch  func(name string)
-	Calls []string
+	Calls    []string
 	// View approximates what the store's sync loop believes the service holds
 	// (its cached position map): the last PosMap answer, updated by each
 	// acknowledged upload and each snapshot fetch. It is part of the state key.
